@@ -352,7 +352,9 @@ def rule_d(ctx, out):
         for g in gates:
             for c in chk:
                 if cfg.edge_dominated_by_branch(c, g, "T"):
-                    rej = [t for t in cfg.nodes if t.kind == "test" and "exp" in norm(t.ast) and "expression" in norm(t.ast) and cfg.dominates(c, t)]
+                    # the rejecting test: a test after the call that looks at one of the values the call returned
+                    got = {x.id for tg in c.ast.targets for x in ast.walk(tg) if isinstance(x, ast.Name)}
+                    rej = [t for t in cfg.nodes if t.kind == "test" and cfg.dominates(c, t) and got & {x.id for x in ast.walk(t.ast) if isinstance(x, ast.Name)}]
                     if rej and not cfg.paths_avoiding(c, r, {t.id for t in rej}):
                         ok = True
         if ok:
@@ -586,7 +588,62 @@ def rule_g(ctx, out):
     out.samples.append({"shapes": "r, op(r, r), op(r, Z), op(Z, r), op(op(r, Z), r), ISZERO(r), NOT(r) for every reducible r = o(a, b)", "consumers": list(ops2)})
 
 
+def rule_h(ctx, out):
+    """Two occurrences of an operation are made one instruction of the specification only if they denote the same value.  check_inputs
+    (the look-up generate_userdefname uses to find an existing instruction) is interpreted for every opcode of the term vocabulary
+    with an existing instruction op(a, b, c..) and a candidate that is identical, differs in exactly one operand, or has its first two
+    operands exchanged: a match is admissible only for the identical candidate and for the exchange under a commutative operation
+    (ADDMOD / MULMOD commute in their first two operands)."""
+    from ..core.interp import ModuleInterp
+    f = ctx.func(f"{GO}.check_inputs")
+    mi = ModuleInterp(ctx, max_steps=50000)
+    env = mi.module_env(GO)
+    n = 0
+    ops = sorted(o for o, (ins, outs) in evm.STACK_ARITY.items() if 1 <= ins <= 3 and outs == 1 and o not in ("PUSH", "DUP", "SWAP"))
+    for op in ops:
+        k = evm.STACK_ARITY[op][0]
+        base = ["s(1)", "s(2)", "s(3)"][:k]
+        existing = {"id": f"{op}_0", "disasm": op, "inpt_sk": list(base), "outpt_sk": ["s(9)"], "commutative": op in evm.COMMUTATIVE}
+        cands = [("identical", list(base), True)]
+        for i in range(k):
+            c = list(base)
+            c[i] = "s(7)"
+            cands.append((f"operand-{i + 1}-differs", c, False))
+            c = list(base)
+            c[i] = 5
+            cands.append((f"operand-{i + 1}-constant", c, False))
+        if k >= 2:
+            sw = [base[1], base[0]] + base[2:]
+            cands.append(("first-two-exchanged", sw, None if (op in evm.COMMUTATIVE or op in ("ADDMOD", "MULMOD")) else False))
+            if k == 3:
+                sw3 = [base[1], base[0], "s(7)"]
+                cands.append(("first-two-exchanged-and-third-differs", sw3, False))
+        for label, args, want in cands:
+            env["user_defins"] = [dict(existing, inpt_sk=list(existing["inpt_sk"]))]
+            try:
+                got = mi.call(f, op, list(args))
+            except Raised as e:
+                got = ("raises", e.what)
+            except Unsupported as e:
+                raise AnalysisError(f"check_inputs cannot be evaluated abstractly on {op}{tuple(args)}: {e}")
+            n += 1
+            found = isinstance(got, dict)
+            if want is None or found == want:
+                out.ok()
+            elif found:
+                out.bad(f"subexpression-identified-with-different-term:{op}:{label}", f"check_inputs takes {op}{tuple(args)} for the existing instruction "
+                        f"{op}{tuple(base)} ({label.replace('-', ' ')}): two different values become one instruction of the specification", where(f))
+            elif isinstance(got, tuple):
+                out.bad(f"subexpression-lookup-raises:{op}", f"check_inputs raises {got[1]} on {op}{tuple(args)}", where(f))
+            else:
+                out.bad(f"identical-subexpression-not-found:{op}", f"check_inputs does not find {op}{tuple(base)} among the existing instructions: every occurrence "
+                        f"gets its own instruction", where(f))
+    if n < 150:
+        raise AnalysisError(f"only {n} look-ups evaluated")
+
+
 RULES = [
+    ("C03.h", "sub-expressions are shared only when every operand agrees", 150, rule_h),
     ("C03.g", "type-1 rule application preserves the denotation", 500, rule_g),
     ("C03.f", "context rules are identities on the pattern family", 25, rule_f),
     ("C03.a", "type-1 rule table against the complete identity set", 200, rule_a),
